@@ -58,6 +58,6 @@ def build_opts(spec):
     if n:
         conds = [ConditionCode.FILE_CHECKSUM_FAILURE, ConditionCode.FILE_SIZE_ERROR, ConditionCode.NAK_LIMIT_REACHED]
         kw["fault_handler_overrides"] = [FaultHandlerOverrideTlv(conds[i % 3], FaultHandlerCode.IGNORE_ERROR) for i in range(n)]
-    if spec.get("flow_label"):
+    if spec.get("flow_label") is not None:
         kw["flow_label_tlv"] = FlowLabelTlv(bytes.fromhex(spec["flow_label"]))
     return kw
